@@ -77,11 +77,14 @@ type Run struct {
 	prefix string
 	hmu    sync.Mutex
 
-	seenHosts   map[string]bool // hostnames the routing probes have met so far: a removed host is probed too
-	step        int
-	faultsLeft  int
-	faultsOff   bool
-	firedFaults []string
+	seenHosts map[string]bool // hostnames the routing probes have met so far: a removed host is probed too
+	// change descriptions the watchers held when a batch was taken / that reached the services (C14, L2)
+	batchTaken, batchDelivered map[string]int
+	bmu                        sync.Mutex
+	step                       int
+	faultsLeft                 int
+	faultsOff                  bool
+	firedFaults                []string
 
 	Trace        []string
 	traceOn      bool
@@ -167,7 +170,7 @@ func (r *Run) dnsLookupIP(host string) ([]net.IP, error) {
 
 // newRun prepares the run state (inside the bubble).
 func newRun(cfg *RunConfig, tape *rt.Tape, traceOn bool) *Run {
-	r := &Run{Cfg: cfg, tape: tape, traceOn: traceOn, probes: map[string]int{}, prefix: "/sim/main",
+	r := &Run{Cfg: cfg, tape: tape, traceOn: traceOn, probes: map[string]int{}, prefix: "/sim/main", batchTaken: map[string]int{}, batchDelivered: map[string]int{},
 		dns: map[string][]string{}, dnsFail: map[string]bool{}, nfHashes: map[string]bool{}}
 	r.simStart = time.Now()
 	r.scheme = newScheme()
